@@ -172,7 +172,7 @@ func (jenny RawTypes) formatEnum(pkg string, object ast.Object) ([]byte, error) 
 
 	return jenny.getTemplate().RenderAsBytes("types/enum.tmpl", EnumTemplate{
 		Package:  jenny.config.formatPackage(pkg),
-		Name:     object.Name,
+		Name:     formatObjectName(object.Name),
 		Values:   values,
 		Type:     enumType,
 		Comments: object.Comments,
@@ -259,7 +259,7 @@ func (jenny RawTypes) formatIntersection(pkg string, identifier string, object a
 	return jenny.getTemplate().RenderAsBytes("types/class.tmpl", ClassTemplate{
 		Package:    jenny.config.formatPackage(pkg),
 		Imports:    jenny.imports,
-		Name:       object.Name,
+		Name:       formatObjectName(object.Name),
 		Extends:    extensions,
 		Comments:   object.Comments,
 		Fields:     fields,
